@@ -924,8 +924,8 @@ static void dump_chrome_task_rstack(struct uftrace_dump_ops *ops, struct uftrace
 		}
 	}
 
-	/* escape the function name */
-	for (i = 0; i < namelen; i++)
+	/* escape the function name (an escaped character takes up to 5 bytes + NUL) */
+	for (i = 0; i < namelen && len > 5; i++)
 		print_json_escaped_char(&p, &len, name[i]);
 	*p = '\0';
 
